@@ -11,17 +11,25 @@ Import ListNotations.
 Open Scope string_scope.
 Open Scope list_scope.
 
+(* [c] is the variant of the code (Model/SvgIO.v cfg): pinned = all flags
+   false = commit 12ec128; repaired = all true. *)
+
 (* ---- wsvg -> svg2paths / Document / SaxDocument: d-strings in order, the
-   supplied per-path attributes among those returned with unchanged values ---- *)
-Theorem C18_wsvg_roundtrip : forall ds attrs svgattrs size,
+   supplied per-path attributes among those returned with unchanged values.
+   For SaxDocument under the hypothesis that no style attribute is involved
+   (SaxDocument lets style declarations override attributes: finding
+   sax-style-overrides-attribute) ---- *)
+Theorem C18_wsvg_roundtrip : forall c ds attrs svgattrs size,
     length attrs = length ds ->
     (* svg2paths *)
     svg2paths_read (wsvg_file ds attrs svgattrs size) = Some (ds, written ds attrs)
     (* Document(file).paths() *)
     /\ doc_read (wsvg_file ds attrs svgattrs size) = (ds, written ds attrs)
     (* SaxDocument(file) *)
-    /\ (exists rv, sax_read (wsvg_file ds attrs svgattrs size) = (ds, map (update rv) (written ds attrs))
-                   /\ sax_root_values (wsvg_file ds attrs svgattrs size) = rv
+    /\ (nostyle svgattrs -> nostyle size -> Forall nostyle attrs ->
+        exists rv, sax_read c (wsvg_file ds attrs svgattrs size)
+                   = Some (ds, map (update rv) (written ds attrs))
+                   /\ sax_root_values c (wsvg_file ds attrs svgattrs size) = rv
                    /\ forall k v, lookup k svgattrs = Some v -> lookup k rv = Some v)
     (* attributes are kept *)
     /\ length (written ds attrs) = length ds
@@ -29,10 +37,10 @@ Theorem C18_wsvg_roundtrip : forall ds attrs svgattrs size,
                           k <> "d" -> lookup k a = Some v ->
                           lookup k w = Some v /\ forall rv, lookup k (update rv w) = Some v).
 Proof.
-  intros ds attrs sa size H. split; [|split; [|split; [|split]]].
+  intros c ds attrs sa size H. split; [|split; [|split; [|split]]].
   - apply wsvg_svg2paths, H.
   - apply wsvg_document, H.
-  - apply wsvg_sax, H.
+  - intros H1 H2 H3. apply wsvg_sax; assumption.
   - apply written_length, H.
   - intros i a w k v Ha Hw Hk Hv.
     assert (E : lookup k w = Some v) by (exact (written_keeps ds attrs i a w k v Ha Hw Hk Hv)).
@@ -52,65 +60,136 @@ Section PathLevel.
   Variable parse : string -> Path.         (* parse_path *)
   Hypothesis parse_d : forall p, parse (dstr p) = p.
 
-  Theorem C18_wsvg_roundtrip_partial : forall ps attrs svgattrs size,
+  Theorem C18_wsvg_roundtrip_partial : forall c ps attrs svgattrs size,
       length attrs = length ps ->
       option_map (fun r => map parse (fst r))
                  (svg2paths_read (wsvg_file (map dstr ps) attrs svgattrs size)) = Some ps
       /\ map parse (fst (doc_read (wsvg_file (map dstr ps) attrs svgattrs size))) = ps
-      /\ map parse (fst (sax_read (wsvg_file (map dstr ps) attrs svgattrs size))) = ps.
+      /\ (nostyle svgattrs -> nostyle size -> Forall nostyle attrs ->
+          option_map (fun r => map parse (fst r))
+                     (sax_read c (wsvg_file (map dstr ps) attrs svgattrs size)) = Some ps).
   Proof.
-    intros ps attrs sa size H.
+    intros c ps attrs sa size H.
     assert (H' : length attrs = length (map dstr ps)) by (rewrite map_length; exact H).
     assert (E : map parse (map dstr ps) = ps).
     { rewrite map_map. erewrite map_ext; [apply map_id|]. exact parse_d. }
     split; [|split].
     - rewrite (wsvg_svg2paths _ _ sa size H'). cbn [option_map fst]. rewrite E. reflexivity.
     - rewrite (wsvg_document _ _ sa size H'). cbn [fst]. exact E.
-    - destruct (wsvg_sax _ _ sa size H') as (rv & Hr & _). rewrite Hr. cbn [fst]. exact E.
+    - intros H1 H2 H3. destruct (wsvg_sax c _ _ sa size H' H1 H2 H3) as (rv & Hr & _).
+      rewrite Hr. cbn [option_map fst]. rewrite E. reflexivity.
   Qed.
 End PathLevel.
 
-(* ---- Document: save / reload is the identity on the tree ---- *)
-Theorem C18_save_reload : forall e, et_parse (et_write e) = e.
-Proof. exact et_roundtrip. Qed.
+(* ---- the style attribute in SaxDocument ---- *)
+(* pinned: a trailing semicolon makes the constructor raise (IndexError) *)
+Example C18_sax_style_semicolon_refuted :
+  style_entries pinned [("style", "fill:none;stroke:black;")] = None
+  /\ sax_read pinned (FE "" SVGNS "svg" [] [FE "" SVGNS "path" [("d", "M0,0 L1,1"); ("style", "fill:none;")] []])
+     = None.
+Proof. vm_compute. split; reflexivity. Qed.
+(* repaired (f_style_skip): splitting never raises *)
+Theorem C18_sax_style_total : forall c a,
+    f_style_skip c = true -> exists r, style_entries c a = Some r.
+Proof. exact style_entries_total. Qed.
+Example C18_sax_style_repaired :
+  style_entries repaired [("style", "fill:none;stroke:black;")] = Some [("stroke", "black"); ("fill", "none")].
+Proof. vm_compute. reflexivity. Qed.
+(* not repaired (finding sax-style-overrides-attribute): a style declaration
+   overrides the attribute of the same name in the values SaxDocument returns *)
+Example C18_sax_style_overrides_refuted :
+  option_map (fun r => map (lookup "fill") (snd r))
+    (sax_read repaired (FE "" SVGNS "svg" []
+       [FE "" SVGNS "path" [("d", "M0,0 L1,1"); ("fill", "red"); ("style", "fill:none")] []]))
+  = Some [Some "none"].
+Proof. vm_compute. reflexivity. Qed.
 
-(* ---- histories: "every added path is visible to paths()" is refuted, in
-   the strongest form: NOTHING that add_path / add_group add is ever visible,
-   for every document and every history; also after save and reload ---- *)
-Theorem C18_doc_history_refuted : forall ops root,
-    doc_visible (run ops root) = doc_visible root
-    /\ doc_visible (et_parse (et_write (run ops root))) = doc_visible root.
-Proof. intros. split; [apply history_invisible|apply history_invisible_reload]. Qed.
+(* ---- Document: save / reload is the identity on the tree: pinned
+   serialisation on every tree, default-namespace serialisation on trees that
+   are entirely in the SVG namespace ---- *)
+Theorem C18_save_reload : forall c e,
+    (f_default_ns c = false \/ pure e = true) -> et_parse (et_write c e) = e.
+Proof.
+  intros c e [H|H]; [apply et_roundtrip, H|apply et_roundtrip_pure, H].
+Qed.
+
+(* ---- histories.  Pinned add_path (f_add_ns = false): "every added path is
+   visible to paths()" is refuted, in the strongest form: NOTHING that
+   add_path / add_group add is ever visible, for every document and every
+   history; also after save and reload ---- *)
+Theorem C18_doc_history_refuted : forall c ops root,
+    f_add_ns c = false ->
+    doc_visible (run c ops root) = doc_visible root
+    /\ (f_default_ns c = false ->
+        doc_visible (et_parse (et_write c (run c ops root))) = doc_visible root).
+Proof.
+  intros c ops root H. split; [apply history_invisible, H|].
+  intros H2. apply history_invisible_reload; assumption.
+Qed.
 
 (* concrete: Document(None); add_path('M0,0 L1,1'); paths() == [] *)
 Example C18_doc_add_path_refuted :
-  doc_visible (run [OpAddPath "M0,0 L1,1" [("id", "a")] []] empty_document) = []
-  /\ x_kids (run [OpAddPath "M0,0 L1,1" [("id", "a")] []] empty_document)
+  doc_visible (run pinned [OpAddPath "M0,0 L1,1" [("id", "a")] []] (empty_document pinned)) = []
+  /\ x_kids (run pinned [OpAddPath "M0,0 L1,1" [("id", "a")] []] (empty_document pinned))
      = [XE "" "path" [("d", "M0,0 L1,1"); ("id", "a")] []].
 Proof. vm_compute. split; reflexivity. Qed.
 
-(* svg2paths on a file saved by Document: exactly the path elements that
-   carry no namespace; those of the SVG namespace are written svg:path and
-   are not found *)
-Theorem C18_doc_save_svg2paths : forall e,
-    elements_by_tag "path" (et_write e) = map et_write (filter bare_path (x_preorder e)).
+(* Repaired add_path (f_add_ns = true): every path added to an element that
+   paths() reaches (the root, or below it through groups), and every path
+   added through nested group names, is returned by paths() after the step
+   and after every continuation of the history; nothing is ever lost *)
+Theorem C18_doc_history : forall c,
+    f_add_ns c = true ->
+    (forall ops1 ops2 root d a p,
+        reach (run c ops1 root) p = true ->
+        In (update a [("d", d)]) (doc_visible (run c (ops1 ++ OpAddPath d a p :: ops2) root)))
+    /\ (forall ops1 ops2 root d a names,
+        In (update a [("d", d)]) (doc_visible (run c (ops1 ++ OpAddPathNamed d a names :: ops2) root)))
+    /\ (forall ops root, incl (doc_visible root) (doc_visible (run c ops root))).
+Proof.
+  intros c H. split; [|split].
+  - apply history_visible_at, H.
+  - apply history_visible_named, H.
+  - apply history_monotone.
+Qed.
+Example C18_doc_add_path_repaired :
+  doc_visible (run repaired [OpAddPath "M0,0 L1,1" [("id", "a")] []] (empty_document repaired))
+  = [[("d", "M0,0 L1,1"); ("id", "a")]].
+Proof. vm_compute. reflexivity. Qed.
+
+(* svg2paths on a file saved by Document, pinned serialisation: exactly the
+   path elements that carry no namespace; those of the SVG namespace are
+   written svg:path and are not found *)
+Theorem C18_doc_save_svg2paths_pinned : forall c e,
+    f_default_ns c = false ->
+    elements_by_tag "path" (et_write c e)
+    = map (et_write_in c false) (filter bare_path (x_preorder e)).
 Proof. exact saved_svg2paths. Qed.
 
 (* a document loaded from a file (path in the SVG namespace), one path added,
    saved: svg2paths returns only the added path, Document/SaxDocument only
    the original one *)
 Definition loaded : xel := XE SVGNS "svg" [] [XE SVGNS "path" [("d", "M0,0 L1,1")] []].
-Definition after : xel := run [OpAddPath "M5,5 L6,6" [] []] loaded.
+Definition after (c : cfg) : xel := run c [OpAddPath "M5,5 L6,6" [] []] loaded.
 Example C18_doc_save_svg2paths_refuted :
-  option_map fst (svg2paths_read (et_write after)) = Some ["M5,5 L6,6"]
-  /\ fst (doc_read (et_write after)) = ["M0,0 L1,1"]
-  /\ fst (sax_read (et_write after)) = ["M0,0 L1,1"].
+  option_map fst (svg2paths_read (et_write pinned (after pinned))) = Some ["M5,5 L6,6"]
+  /\ fst (doc_read (et_write pinned (after pinned))) = ["M0,0 L1,1"]
+  /\ option_map fst (sax_read pinned (et_write pinned (after pinned))) = Some ["M0,0 L1,1"].
 Proof. vm_compute. repeat split. Qed.
 
-(* repair: an element created in the SVG namespace is visible *)
-Theorem C18_doc_add_path_repaired : forall d a root,
-    In (update a [("d", d)]) (doc_visible (append_child (new_path_element_fixed d a) root)).
-Proof. exact history_visible_fixed. Qed.
+(* repaired serialisation (default namespace) of a document entirely in the
+   SVG namespace: svg2paths finds every path element, in document order *)
+Theorem C18_doc_save_svg2paths : forall c e,
+    f_default_ns c = true -> pure e = true ->
+    elements_by_tag "path" (et_write c e)
+    = map (et_write_in c (has_svgns e))
+          (filter (fun x => String.eqb (x_local x) "path") (x_preorder e)).
+Proof. exact saved_svg2paths_default. Qed.
+Example C18_doc_save_repaired :
+  option_map fst (svg2paths_read (et_write repaired (after repaired))) = Some ["M0,0 L1,1"; "M5,5 L6,6"]
+  /\ fst (doc_read (et_write repaired (after repaired))) = ["M0,0 L1,1"; "M5,5 L6,6"]
+  /\ option_map fst (sax_read repaired (et_write repaired (after repaired))) = Some ["M0,0 L1,1"; "M5,5 L6,6"].
+Proof. vm_compute. repeat split. Qed.
 
 (* non-vacuity *)
 Example C18_nonvacuous :
@@ -125,9 +204,12 @@ Proof. vm_compute. reflexivity. Qed.
 Print Assumptions C18_wsvg_roundtrip.
 Print Assumptions C18_wsvg_svg_attributes.
 Print Assumptions C18_wsvg_roundtrip_partial.
+Print Assumptions C18_sax_style_total.
 Print Assumptions C18_save_reload.
 Print Assumptions C18_doc_history_refuted.
+Print Assumptions C18_doc_history.
 Print Assumptions C18_doc_add_path_refuted.
+Print Assumptions C18_doc_save_svg2paths_pinned.
 Print Assumptions C18_doc_save_svg2paths.
 Print Assumptions C18_doc_save_svg2paths_refuted.
-Print Assumptions C18_doc_add_path_repaired.
+Print Assumptions C18_doc_save_repaired.
